@@ -134,6 +134,13 @@ def run(ctx):
                 "paths; schedules themselves are not explored.")
     ctx.assume("the interleaving argument (a request before the reset is followed by the rebuild, one after it leaves "
                "the flag set) is a paper argument over the checked facts")
+    # A9 (after seed C20-9): with fast reload "reloaded" means `clear_templates()`.  The environment handed out after a
+    # request reflects the request only if that call empties everything a lookup can have recorded: both template tiers,
+    # and nothing else is recorded by a lookup (a negative cache that `clear()` does not know keeps a template "missing"
+    # after it appeared).  The store rules of C15 (U2 clearing, U8 what a lookup may record) are clauses of this property.
+    if not ctx.is_borrowed:
+        from . import c15 as _c15
+        _c15.run(ctx.borrowed("C15", "C20.A9:", only=lambda rule, inst: rule.startswith(("C15.U2.clear", "C15.U8."))))
     # acquire_env, request_reload and the watcher callback are read through the private helpers of the crate that parts
     # of them may have been moved into (`refresh_env(&mut slot)`).  Functions that write the flag themselves stay calls:
     # the rules below find them by that write (resetters, setters) and reason about their call sites.
